@@ -63,6 +63,7 @@ def run(chk):
     chk.rule("R2", "default implementation of each dunder operator is `p1 OP p2` / `OP p1` with the matching Python operator")
     chk.rule("R3", "case expressions are compiled branch by branch in order, (condition -> when, value -> then), default only if present")
     chk.rule("R3v", "the CaseExpr branch of SqlImpl.compile_col_expr interpreted on stub case expressions (equal values in non-adjacent cases, with / without default): one WHEN per case in order, or a statement that selects the same branch for every valuation of the conditions over {true, false, null}")
+    chk.rule("R10v", "ColExpr.map interpreted on a stub column: one `is_in` comparison of the input per mapping entry in order, a string key is one value and a tuple key its elements, every entry yields its value, the default is the input itself unless one is given")
     chk.rule("R4", "every catalogue operator has an API construction site; generated methods exist for generate_expr_method operators")
     chk.rule("R5", "sign analysis: Polars emulation of truncating // and % yields sign(lhs)*sign(rhs) resp. sign(lhs)")
     chk.rule("R7", "SQL implementations of string-valued operators return a typed expression (an untyped func.X(..) makes `+` render as numeric addition instead of ||)")
@@ -357,6 +358,10 @@ def _case_rule(chk, repo):
             )  # fmt: skip
             chk.ob("R3", pol, n, "polars CaseExpr: otherwise(default) only if default_val is not None", has_guard,
                    "the default of a case expression must be attached exactly when one was given")  # fmt: skip
+    from .. import colexprsim as _ces3
+
+    if _ces3.report(chk, model_of(chk), "R10v", ("ColExpr.map",), floor=8) is False:
+        pass  # (undecided note written by report)
     sql = repo.mod("backend.sql")
     f = sql.func("SqlImpl.compile_col_expr")
     # the SQL side is decided on the interpreted CaseExpr branch (pipesim.case_scenarios_sql: one WHEN per case in order, or a
